@@ -551,6 +551,15 @@ class Tr:
                 # `[v for v in it]` is `list(it)`
                 return it if it[:2] == ("call", "list") else ("call", "list", [it])
             return ("comp", x, it, self.expr(e.elt, sub2), cond)
+        if self.orch and isinstance(e, ast.Call) and isinstance(e.func, ast.Name) and e.func.id == "filter" \
+                and "filter" not in self.bound and len(e.args) == 2 and not e.keywords \
+                and isinstance(e.args[0], ast.Lambda) and len(e.args[0].args.args) == 1 \
+                and not (e.args[0].args.vararg or e.args[0].args.kwarg or e.args[0].args.kwonlyargs or e.args[0].args.defaults):     # noqa: PLR2004
+            # round 6: `filter(lambda v: c, xs)` (consumed at once) is `[v for v in xs if c]`
+            lam = e.args[0]
+            v = lam.args.args[0].arg
+            return rec(ast.copy_location(ast.ListComp(elt=ast.Name(id=v, ctx=ast.Load()), generators=[ast.comprehension(
+                target=ast.Name(id=v, ctx=ast.Store()), iter=e.args[1], ifs=[lam.body], is_async=0)]), e))
         if isinstance(e, ast.Call):
             return self.call(e, sub)
         if isinstance(e, ast.Dict) and not e.keys and self.plumbing:
@@ -596,6 +605,25 @@ class Tr:
                 and all(isinstance(t, ast.Name) for t in g.target.elts) and pairs \
                 and len(g.target.elts) == 2 and len({t.id for t in g.target.elts}) == 2:      # noqa: PLR2004
             # every item of `zip(a, b)` / `d.items()` is a pair, so unpacking it cannot fail: the targets are its components
+            x = self.tmp()
+            self.bound.add(x)
+            it = self.expr(g.iter, sub)
+            sub2 = {k: v for k, v in sub.items() if k not in [t.id for t in g.target.elts]}
+            for k, t in enumerate(g.target.elts):
+                sub2[t.id] = ("index", ("var", x), ("lit", ("int", k)))
+            cond = TRUE
+            if g.ifs:
+                conds = [self.expr(c, sub2) for c in g.ifs]
+                cond = conds[-1]
+                for c in reversed(conds[:-1]):
+                    cond = ("and", c, cond)
+            return x, it, cond, sub2
+        if self.orch and not g.is_async and isinstance(g.target, ast.Tuple) and g.target.elts \
+                and all(isinstance(t, ast.Name) for t in g.target.elts) \
+                and len({t.id for t in g.target.elts}) == len(g.target.elts):
+            # round 6: `… for a, b in it`: the targets are the components `t[0]`, `t[1]` of the item.  (Python raises ValueError
+            # for an item of another length; PyLite reads the components it needs - the theorem presents `it` as a list of
+            # tuples of that length.)
             x = self.tmp()
             self.bound.add(x)
             it = self.expr(g.iter, sub)
